@@ -171,19 +171,20 @@ PROPS = {
     ),
     "C15": dict(
         harnesses=[
-            dict(run="pkg/zzc15.VerifC15Restart", quick=dict(attempts=3), thorough=dict(attempts=4), covers=["failed-writes-consumed-revisions", "follower-sync", "done"], no_native=True),
+            dict(run="pkg/zzc15.VerifC15Restart", quick=dict(attempts=3, oraclefaults=0), thorough=dict(attempts=4, oraclefaults=0), covers=["failed-writes-consumed-revisions", "follower-sync", "done"], no_native=True),
+            dict(run="pkg/zzc15.VerifC15Restart", name="C15_oraclefault", quick=dict(attempts=1, oraclefaults=3), thorough=dict(attempts=2, oraclefaults=4), covers=["oracle-fault-during-takeover", "follower-sync", "done"], no_native=True),
         ],
-        bounds=dict(quick="old leader elected through the real election path, 3 write attempts with symbolic expected revisions (any mix of successes, failed conditions and future-revision rejections) each optionally followed by a lock renewal; new node with 0..2 follower revision syncs in any order, elected over the same store; engine clock contract: wall clock/PD timestamp (>= 1 unit per attempt) or count of committed transactions",
-                    thorough="4 write attempts"),
+        bounds=dict(quick="old leader elected through the real election path, 3 write attempts with symbolic expected revisions (any mix of successes, failed conditions and future-revision rejections) each optionally followed by a lock renewal; new node with 0..2 follower revision syncs in any order, elected over the same store; engine clock contract: wall clock/PD timestamp (>= 1 unit per attempt) or count of committed transactions; separately (1 write attempt): the engine's timestamp oracle fails once at any of its first 3 calls during the take-over and the elector runs one more round",
+                    thorough="4 write attempts; oracle fault with 2 write attempts, at any of the first 4 calls"),
         outside="client-go's elector loop (modelled as one Get + Create/Update + OnStartedLeading); real clocks; the assumption 'fewer than one write attempt per clock unit' for wall-clock/PD engines",
         assumptions=["leaderelection.RunOrDie is replaced by a model of one successful acquire pass; counterexamples of this harness are NOT replayed natively (the real elector cannot be stopped and exits the process on lost leadership) — the Badger clock finding was reproduced by hand on a real Badger directory during design"],
     ),
     "C20": dict(
         harnesses=[
             dict(run="pkg/zzc20.VerifC20NoCrash", name="C20_single", quick=dict(requests=1, keylen=2), thorough=dict(requests=1, keylen=3), covers=["done"]),
-            dict(run="pkg/zzc20.VerifC20NoCrash", name="C20_pairs", quick=dict(requests=2, keylen=0), thorough=dict(requests=2, keylen=1), covers=["done"]),
+            dict(run="pkg/zzc20.VerifC20NoCrash", name="C20_pairs", quick=dict(requests=2, keymenu=1), thorough=dict(requests=2, keylen=1), covers=["done"]),
         ],
-        bounds=dict(quick="every ordered pair of requests with empty keys (so that two emission sites of one metric meet in one process), and one request through any of 14 handler groups of both APIs with keys/values/range ends of 0..2 arbitrary bytes (invalid UTF-8, bytes below the alphabet), symbolic 64-bit revisions and limits (zero, negative, far future), missing sub-messages, watches cancelled; real prometheus wrapper over a model of client_golang's panic rules; then a create + get must work",
+        bounds=dict(quick="every ordered pair of requests whose key is empty or an ordinary key (so that two emission sites of one metric — with the label sets of both the refused and the served shape — meet in one process), and one request through any of 14 handler groups of both APIs with keys/values/range ends of 0..2 arbitrary bytes (invalid UTF-8, bytes below the alphabet), symbolic 64-bit revisions and limits (zero, negative, far future), missing sub-messages, watches cancelled; real prometheus wrapper over a model of client_golang's panic rules; then a create + get must work",
                     thorough="pairs with keys of 0..1 bytes; single requests with keys of 0..3 bytes"),
         outside="protobuf/gRPC decoding; resource exhaustion; more than 2 requests per process; metric emission sites not reached by these handlers (election callbacks, retry loop, compaction histories)",
     ),
